@@ -213,11 +213,14 @@ func (propC17) Execute(pp any, x *X) *Violation {
 			}
 			enumerated++
 			prefix := data[:cut]
-			variant := (cut + int(p.Seed%3)) % 3
+			variant := (cut + int(p.Seed%4)) % 4
 			mk := func() interface{ Read([]byte) (int, error) } {
 				switch variant {
 				case 0:
 					return bytes.NewReader(prefix) // has Len()
+				case 3:
+					// Len() still announces the complete file: a transfer of known length that was cut
+					return NewSimReader(prefix, ReadPlan{Seed: rr.Next(), Mode: "mixed", HasLen: true, EOFWith: cut%2 == 0, ErrAt: -1, LenExtra: len(data) - cut})
 				case 1:
 					return NewSimReader(prefix, ReadPlan{Seed: rr.Next(), Mode: "whole", HasLen: false, ErrAt: -1})
 				default:
@@ -300,7 +303,7 @@ func nearChunkEdge(wf *WFile, cut int) bool {
 
 func (propC17) Describe() PropDoc {
 	return PropDoc{
-		Rule: "one run = one still file written by the real encoder (lossy with 1/2/4/8 partitions, lossless, lossy+raw/compressed alpha with each filter, VP8X with ICC before and EXIF/XMP after the image; plus the testdata files; every ninth file is a hand-crafted valid VP8 key frame with constructs no encoder emits) x EVERY proper prefix 0..len-1 (files over 8 KB: every prefix near chunk edges, every 17th elsewhere), each delivered by one of three reader behaviours (with Len(), without, piecewise with (n,EOF)), plus a sampled reader that fails instead of EOF; Decode, DecodeConfig and GetFeatures are run on each. distinct non-trivial = distinct <file, cut point> pairs with cut > 0. Exhaustive per generated file, sampled over files.",
+		Rule: "one run = one still file written by the real encoder (lossy with 1/2/4/8 partitions, lossless, lossy+raw/compressed alpha with each filter, VP8X with ICC before and EXIF/XMP after the image; plus the testdata files; every ninth file is a hand-crafted valid VP8 key frame with constructs no encoder emits) x EVERY proper prefix 0..len-1 (files over 8 KB: every prefix near chunk edges, every 17th elsewhere), each delivered by one of four reader behaviours (with Len(), without, piecewise with (n,EOF), with a Len() that still announces the complete file), plus a sampled reader that fails instead of EOF; Decode, DecodeConfig and GetFeatures are run on each. distinct non-trivial = distinct <file, cut point> pairs with cut > 0. Exhaustive per generated file, sampled over files.",
 		Assumptions: []string{
 			"the set of files is a seeded sample; for each file up to 8 KB the enumeration of cut points is complete",
 			"'identical' compares type, bounds and every sample of the decoded image, and the full Config / Features structs",
